@@ -37,6 +37,19 @@ Theorem C10_gen_child_defaults : forall w p pe name,
 Proof. exact GenTreeP.defaults_fresh_entry. Qed.
 Print Assumptions C10_gen_child_defaults.
 
+(* the skip count (C14 reads it): SetSkip(n) and withSkip(n) store exactly n, whatever n and whatever was stored;
+   WithSkip(n) asks newChildLogger for the child named c/<name>[<n>] - with the receiver's name and the SAME n in
+   decimal - and sets the count n on THAT child *)
+Theorem C10_gen_set_skip : forall s old n,
+  Loggers.set_skip s old n = n /\ Loggers.with_skip s old n = (s, n).
+Proof. intros s old n. split; [apply GenTreeP.gen_set_skip|apply GenTreeP.gen_with_skip]. Qed.
+Print Assumptions C10_gen_set_skip.
+
+Theorem C10_gen_with_skip_child : forall newChild withSkip name old n,
+  Loggers.with_skip_child newChild withSkip name old n = withSkip (newChild (skip_child_name name n)) n.
+Proof. exact GenTreeP.gen_with_skip_child. Qed.
+Print Assumptions C10_gen_with_skip_child.
+
 (* New(name) returns the existing direct child of that name and changes nothing ... *)
 Theorem C10_new_lookup : forall islw w p k opts j pe,
   nth_error (entries w) p = Some pe -> find_child w p (NStr k) = Some j ->
